@@ -208,3 +208,24 @@ _EXTRA5 = {
 }
 for _k, _v in _EXTRA5.items():
     PROPS[_k]['text'] = PROPS[_k]['text'].rstrip() + _v
+
+_EXTRA6 = {
+ 'C01': ' The executor no longer takes an or of several pixels\' mask bytes equal to 0xff as "all opaque", and recognises the saturating-add idiom only when the carry bit survives to the shift.',
+ 'C02': ' Coefficient products 64-bit in both convolution readers (C02-R19).',
+ 'C03': ' A clip region is read only under the same image\'s have_clip_region, in the function or at every call site (C03-R9).',
+ 'C05': ' A loop that keeps its own running copy of cursor->field never reads the raw field again (C05-R8, second clause).',
+ 'C06': ' Clamps independent per axis and sibling range tests (C07-R5, C07-R8).',
+ 'C07': ' The x and the y comparison of the same two boxes classify the touching case alike (C07-R10, 56 pairs).',
+ 'C08': ' The float bilinear blend is the four-neighbour formula in every channel (C08-R14, symbolic).',
+ 'C11': ' Every term of a matrix-vector product pairs column j with component j (C11-R11); a helper that divides by its argument is called only under a test of that argument (C11-R12).',
+ 'C12': ' Every write-out of the deferred a8 span multiplies the row count by N_X_FRAC (8) (C12-R10).',
+ 'C13': ' The float and the 32-bit walker test the cached segment with the same comparisons (C13-R11).',
+ 'C15': ' The cleanup loop bound is exclusive (C15-R10).',
+ 'C16': ' A read-modify-write of the word after a 1-bpp span is excluded (C16-R6 = C04-R11, guard evaluated at count 0).',
+ 'C17': ' The empty-slot test of the removal looks one probe step ahead (C17-R7); the table is dumped only under comparisons with N_GLYPHS_HIGH_WATER (C17-R8).',
+ 'C18': ' The tap that absorbs the rounding residue becomes old + (pixman_fixed_1 - accumulated sum) (C18-R11).',
+ 'C19': ' The destination clip is consulted under have_clip_region (C19-R11).',
+ 'C20': ' The table-clearing sweep visits every slot (C17-R2 wired in).',
+}
+for _k, _v in _EXTRA6.items():
+    PROPS[_k]['text'] = PROPS[_k]['text'].rstrip() + _v
